@@ -190,14 +190,14 @@ func EncodeUDP(p []byte, srcPort uint16, dstPort uint16) UDP {
 func (p UDP) SetPayload(b []byte) UDP {
 	binary.BigEndian.PutUint16(p[4:6], UDPHeaderLen+uint16(len(b)))
 	binary.BigEndian.PutUint16(p[6:8], 0) // no checksum
-	return p[:len(p)+len(b)]
+	return p[:UDPHeaderLen+len(b)] // header + payload as in the length field, whatever the length of the view
 }
 
 func (p UDP) AppendPayload(b []byte) (UDP, error) {
-	if cap(p)-len(p) < len(b) {
+	if cap(p)-UDPHeaderLen < len(b) { // room after the header, whatever the length of the view
 		return nil, ErrPayloadTooBig
 	}
-	p = p[:len(p)+len(b)] // change slice in case slice is less total
+	p = p[:UDPHeaderLen+len(b)] // header + payload, as the length field below
 	copy(p.Payload(), b)
 	binary.BigEndian.PutUint16(p[4:6], UDPHeaderLen+uint16(len(b)))
 	binary.BigEndian.PutUint16(p[6:8], 0) // no checksum
